@@ -5,6 +5,8 @@ Python `//` is floor division -> `Int.fdiv`; unary minus, `*`, `+`, `-` map one 
 the integers the expression is applied to.  Anything else is rejected (gen_tables then reports it and the proofs over
 the old table are not silently kept: the driver/proof build is what the verdict looks at)."""
 from __future__ import annotations
+
+PROPERTIES = ['C05']   # properties whose proofs depend on these declarations
 import ast
 import re
 
